@@ -305,7 +305,7 @@ fn run(ctx: &mut Ctx) {
     // hash seeds must not decide which spelling survives
     let total_c = ctx.tier.pick(10_000, 150_000);
     let strat_c = move || {
-        (case_strategy(&["cased"], false, W_CASE, 6, 3, fix), vec(any::<u16>(), 0..8))
+        (case_strategy(&["cased", "cased", "fold-s", "fold-sigma"], false, W_CASE, 6, 3, fix), vec(any::<u16>(), 0..8))
             .prop_map(|(mut c, perm)| {
                 c.cfg.ignore_case = true;
                 c.extra = json!({"pool": c.extra["pool"], "perm": perm});
